@@ -293,8 +293,13 @@ def run(tier):
         rep.cov["evaluations"] += n * (len(SIGNAL_STRATS) + 3)
         rep.cov["distinct_nontrivial"] += sum(c for k, c in dist.items() if k.endswith("/periods") or k.endswith("compared") or k.endswith("vehicle-steps"))
         rep.notes["signal"] = {"scenarios_per_strategy": n, "dist": dict(dist)}
+    # the signals these strategies follow are produced by the window-membership functions (C15) and delivered / written to the
+    # vehicles and connectors by the event machinery (C07): both correspondence units are part of this check as well
+    import c07
+    import c15
+    c15.UNIT.minutes_cases = 1 if tier == "quick" else 10
     return corr.standard_run(
-        "C11", tier, [], 0, 0,
+        "C11", tier, [c15.UNIT, c07.UNIT], {"windows": 250, "events": 250}, {"windows": 2500, "events": 2500},
         trusted=["peak_load_window, flex_window, balanced_market and the look-ahead part of schedule (individual) are NOT modelled; "
                  "their clauses are evaluated on generated scenarios (sampled)",
                  "the harness's scenario generator, recorder around Strategy.step and battery oracle (implementation's Battery class)"],
@@ -308,6 +313,12 @@ def run(tier):
 
 def replay(payload):
     inp = payload["input"]
+    if inp.get("unit") == "windows":
+        import c15
+        return c15.replay(payload)
+    if inp.get("unit") in ("events", "weekly"):
+        import c07
+        return c07.replay(payload)
     case = C.unjson(inp["case"])
     f = {"signal": check_signal_case, "cost": check_cost_case, "schedule": check_schedule_case}[inp["unit"]]
     return f(case)[0]
